@@ -53,7 +53,7 @@ fn vf_lock_address_defaults() {
         checked += 1;
         match serde_json::from_str::<LockServerConfig>(text) {
             Ok(c) => { if c.port != d.port || c.port == 0 || (!text.contains("host") && c.host != d.host) {
-                bad += 1; println!("VF-FAIL lock configuration `{}` :: resolves to {}:{}, the documented default address is {}:{} (two invocations would not share one lock address) (C14)", text, c.host, c.port, d.host, d.port); } }
+                bad += 1; println!("VF-FAIL lock configuration `{}` :: resolves to {}:{}, the documented default address is {}:{} (two invocations would not share one lock address) (C14) (C12)", text, c.host, c.port, d.host, d.port); } }
             Err(e) => { bad += 1; println!("VF-FAIL lock configuration `{}` :: rejected: {} (C14)", text, e); }
         }
     }
